@@ -299,6 +299,33 @@ theorem dl_allowNull (H : DL d f ⟨n, ty, us, zf, cs, co, gen, an, nn, ai, df, 
     kw_simp
     exact H g (by omega)
 
+theorem dl_generated (hg : genOK d gen = true) (hf : ∀ e m, gen = some ⟨e, some m⟩ → 20 * sizeL (W d noX e 8) + 2 ≤ f)
+    (H : DL d f ⟨n, ty, us, zf, cs, co, gen, an, nn, ai, df, ou, cm⟩ r N res) :
+    DL d f ⟨n, ty, us, zf, cs, co, none, an, nn, ai, df, ou, cm⟩ (toksGenerated d gen ++ r) (N + (toksGenerated d gen).length) res := by
+  rcases gen with _ | ⟨e, _ | m⟩
+  · simpa [toksGenerated] using H
+  · simp [genOK] at hg
+  · intro g hg'
+    simp only [toksGenerated, List.length_cons, List.length_nil] at hg'
+    obtain ⟨g, rfl⟩ : ∃ k, g = k + 1 := ⟨g - 1, by omega⟩
+    simp only [genOK, Bool.and_eq_true, modeOK] at hg
+    have h1 : pCompute d f (W d noX e 8) = .ok (e, []) := by
+      have := key8 e hg.1 [] rfl f (hf e m rfl)
+      simpa using this
+    simp only [toksGenerated]
+    rw [defColLoop]
+    kw_simp
+    simp only [pGenerated]
+    kw_simp
+    simp only [h1, closed]
+    cases hfind : Gen.genColSaveModes.find? (·.1 == up m) with
+    | none => rw [hfind] at hg; simp at hg
+    | some sm =>
+      rw [hfind] at hg
+      have : sm.2 = m := by simpa using hg.2
+      simp only [this]
+      exact H g (by omega)
+
 theorem dl_collate (H : DL d f ⟨n, ty, us, zf, cs, co, gen, an, nn, ai, df, ou, cm⟩ r N res) :
     DL d f ⟨n, ty, us, zf, cs, none, gen, an, nn, ai, df, ou, cm⟩ (toksCollate co ++ r) (N + (toksCollate co).length) res := by
   cases co with
